@@ -31,6 +31,8 @@ EXTRA = {
     r'<geo_types::Coord<\w+> as Mul<\w+>>::mul': ('geo_types', r'geometry::coord::<impl at [^>]*>::mul'),
     r'<geo_types::Coord<\w+> as Div<\w+>>::div': ('geo_types', r'geometry::coord::<impl at [^>]*>::div'),
     r'WeightedCentroid::<\w+>::add_assign': ('geo', r'centroid::<impl at [^>]*>::add_assign'),
+    r'CentroidOperation::<\w+>::new': ('geo', r'centroid::<impl at geo/src/algorithm/centroid\.rs:44\d:1: [^>]*>::new'),
+    r'WeightedCentroid::<\w+>::sub_assign': ('geo', r'centroid::<impl at [^>]*>::sub_assign'),
     r'CentroidOperation::<\w+>::add_weighted_centroid': ('geo', r'centroid::<impl at [^>]*>::add_weighted_centroid'),
     r'geo_types::Coord::<\w+>::x_y': ('geo_types', r'geometry::coord::<impl at [^>]*>::x_y'),
     r'geo_types::Line::<\w+>::determinant': ('geo_types', r'line::<impl at [^>]*>::determinant'),
@@ -725,6 +727,200 @@ def o_closest(mir, tier, seed):
         bad.append(z3.And(pc, z3.Or(L == 0, z3.Not(exact), z3.Not(kind_ok), z3.Not(payload))))
     st, info, model = check_unsat('line_closest_point_real', assumptions + [z3.Or(bad)], timeout_s=30)
     return dict(theory='Real (nonlinear); Euclidean length = h with h >= 0, h^2 = dx^2 + dy^2; Line.intersects(Point) = its exact definition', functions=['ClosestPoint for Line', 'Point::dot'], paths=len(outs), status=st, info=info, model=None, replay=('line_closest_point', ''))
+
+
+# ---- C15: densify keeps every original vertex, in order, with the inserted points in between
+
+@obligation('C15', 'densify_linestring_structure', 'for line strings of 0-4 coordinates, repeated consecutive vertices included: densify returns, in order, every original vertex with exactly the output of densify_between(previous, next) between consecutive ones, and the last vertex at the end (densify_between itself uninterpreted)')
+def o_densify(mir, tier, seed):
+    from mir2smt import SliceIter
+    fn = mir.find('geo', r'densify::<impl at [^>]*>::densify', sig=r'_1: &geo_types::LineString<')
+    bad, npaths = [], 0
+    patterns = [[], ['v0'], ['v0', 'v1'], ['v0', 'v1', 'v2'], ['v0', 'v1', 'v1', 'v2'], ['v0', 'v0'], ['v0', 'v1', 'v0', 'v0']]
+    for pat in patterns:
+        verts = [('vertex', v) for v in pat]
+
+        def lines(ip, d, verts=verts):
+            return SliceIter([[verts[i], verts[i + 1]] for i in range(len(verts) - 1)])
+
+        def between(ip, d):
+            deref(d[3]).append(('between', deref(d[1]), deref(d[2])))
+            return []
+
+        def endpoint(k):
+            def f(ip, d):
+                return ('point', deref(d[0])[k])
+            return f
+
+        def into_point(ip, d):
+            return ('point', deref(d[0]))
+
+        def count(ip, d):
+            return len(deref(deref(d[0])[0]))
+
+        def from_points(ip, d):
+            return ('linestring-of', list(deref(d[0])))
+
+        def ls_new(ip, d):
+            return ('linestring-of', list(deref(d[0])))
+        uf = {'re:geo_types::LineString::<\\w+>::lines': lines, 're:densify_between::<.*>': between,
+              're:geo_types::Line::<\\w+>::start_point': endpoint(0), 're:geo_types::Line::<\\w+>::end_point': endpoint(1),
+              're:<geo_types::Coord<\\w+> as Into<geo_types::Point<\\w+>>>::into': into_point,
+              're:<geo_types::LineString<\\w+> as (algorithm::)?coords_iter::CoordsIter>::coords_count': count,
+              're:<geo_types::LineString<\\w+> as From<Vec<geo_types::Point<\\w+>>>>::from': from_points,
+              're:geo_types::LineString::<\\w+>::new': ls_new}
+        ip = Interp(mir, RealTheory(), EXTRA, uf)
+        ls = [list(verts)]
+        outs = ip.call_fn(fn, [Ref(lambda ls=ls: ls), ('metric-space',), RealTheory().var('max_len')], z3.BoolVal(True))
+        npaths += len(outs)
+        want = []
+        for i, v in enumerate(verts):
+            want.append(('point', v))
+            if i + 1 < len(verts):
+                want.append(('between', ('point', v), ('point', verts[i + 1])))
+        ok = len(outs) == 1 and isinstance(deref(outs[0][1]), tuple) and deref(outs[0][1])[0] == 'linestring-of' and [deref(x) for x in deref(outs[0][1])[1]] == want
+        if not ok:
+            bad.append(z3.BoolVal(True))
+    st, info, model = check_unsat('densify_linestring_structure', [z3.Or(bad) if bad else z3.BoolVal(False)])
+    return dict(theory='structural (concrete vertex-identity patterns, repeated vertices included); densify_between opaque', functions=['Densifiable for LineString: densify', 'densify::{closure#0}'], paths=npaths, status=st, info=info, model=None, replay=('densify_structure', ''))
+
+
+# ---- C06: what each simple member contributes (dimension, centroid, weight)
+
+@obligation('C06', 'centroid_member_contributions', 'a valid Triangle contributes (TwoDimensional, mean of its vertices, unsigned_area) - the weight is the UNSIGNED area whatever the vertex order; a Rect with area contributes (TwoDimensional, Rect::centroid(), unsigned_area); a Line with length contributes (OneDimensional, its midpoint, Euclidean length)')
+def o_contrib(mir, tier, seed):
+    C = r'centroid::<impl at geo/src/algorithm/centroid\.rs:44\d:1: [^>]*>::'
+    T = RealTheory()
+    bad, npaths = [], 0
+    UA, SA, LEN = T.var('unsigned_area'), T.var('signed_area'), T.var('euclidean_length')
+    rec = []
+
+    def add_centroid(ip, d, pc):
+        rec.append((pc, deref(d[1]), deref(d[2]), d[3]))
+        return []
+    add_centroid.wants_pc = True
+    base = {'re:CentroidOperation::<\\w+>::add_centroid': add_centroid,
+            're:<geo_types::\\w+<\\w+> as (algorithm::)?area::Area<\\w+>>::unsigned_area': lambda ip, d: UA,
+            're:<geo_types::\\w+<\\w+> as (algorithm::)?area::Area<\\w+>>::signed_area': lambda ip, d: SA,
+            're:<euclidean::Euclidean as (algorithm::)?line_measures::length::Length<\\w+>>::length::<.*>': lambda ip, d: LEN}
+    a, b, c = coord(T, 'a'), coord(T, 'b'), coord(T, 'c')
+    # Triangle
+    uf = dict(base)
+    uf['re:<geo_types::Triangle<\\w+> as (algorithm::)?dimensions::HasDimensions>::dimensions'] = lambda ip, d: Enum('TwoDimensional')
+    ip = Interp(mir, T, EXTRA, uf)
+    tri = [a, b, c]
+    outs = ip.call_fn(mir.find('geo', C + 'add_triangle'), [Ref(lambda: ['op']), Ref(lambda: tri)], z3.BoolVal(True))
+    npaths += len(outs)
+    if len(rec) != 1 or not variant_is(rec[0][1], 'TwoDimensional'):
+        bad.append(z3.BoolVal(True))
+    else:
+        _, _, cen, w = rec[0]
+        bad.append(z3.Or(cen[0] * 3 != a[0] + b[0] + c[0], cen[1] * 3 != a[1] + b[1] + c[1], w != UA))
+    # Line (with length)
+    del rec[:]
+    uf = dict(base)
+    uf['re:<geo_types::Line<\\w+> as (algorithm::)?dimensions::HasDimensions>::dimensions'] = lambda ip, d: Enum('OneDimensional')
+    uf['re:<geo_types::Line<\\w+> as (algorithm::)?centroid::Centroid>::centroid'] = lambda ip, d: [[(deref(d[0])[0][0] + deref(d[0])[1][0]) / 2, (deref(d[0])[0][1] + deref(d[0])[1][1]) / 2]]
+    ip = Interp(mir, T, EXTRA, uf)
+    outs = ip.call_fn(mir.find('geo', C + 'add_line'), [Ref(lambda: ['op']), Ref(lambda: [a, b])], z3.BoolVal(True))
+    npaths += len(outs)
+    if len(rec) != 1 or not variant_is(rec[0][1], 'OneDimensional'):
+        bad.append(z3.BoolVal(True))
+    else:
+        _, _, cen, w = rec[0]
+        bad.append(z3.Or(cen[0] * 2 != a[0] + b[0], cen[1] * 2 != a[1] + b[1], w != LEN))
+    # Rect (with area)
+    del rec[:]
+    uf = dict(base)
+    RC = [coord(T, 'rect_centre')]
+    uf['re:<geo_types::Rect<\\w+> as (algorithm::)?dimensions::HasDimensions>::dimensions'] = lambda ip, d: Enum('TwoDimensional')
+    uf['re:<geo_types::Rect<\\w+> as (algorithm::)?centroid::Centroid>::centroid'] = lambda ip, d: RC
+    ip = Interp(mir, T, EXTRA, uf)
+    outs = ip.call_fn(mir.find('geo', C + 'add_rect'), [Ref(lambda: ['op']), Ref(lambda: ('rect',))], z3.BoolVal(True))
+    npaths += len(outs)
+    if len(rec) != 1 or not variant_is(rec[0][1], 'TwoDimensional'):
+        bad.append(z3.BoolVal(True))
+    else:
+        _, _, cen, w = rec[0]
+        bad.append(z3.Or(cen[0] != RC[0][0], cen[1] != RC[0][1], w != UA))
+    st, info, model = check_unsat('centroid_member_contributions', [z3.Or(bad)])
+    return dict(theory='Real; dimensions(), unsigned_area(), signed_area(), Euclidean length and Line::centroid uninterpreted', functions=['CentroidOperation::add_triangle', 'CentroidOperation::add_line', 'CentroidOperation::add_rect'], paths=npaths, status=st, info=info, model=None, replay=('centroid_contributions', ''))
+
+
+@obligation('C06', 'polygon_centroid_assembly', 'add_polygon, rings opaque (each ring with area contributes an arbitrary (weight, weighted sum) of dimension two through add_ring, 0-2 holes): the polygon contributes exterior minus holes as ONE two-dimensional weighted centroid - unless the holes cancel the exterior weight exactly, in which case the exterior is added as a LINE STRING (add_line_string, lengths as weights) and nothing else; an empty exterior contributes nothing')
+def o_poly_assembly(mir, tier, seed):
+    from mir2smt import SliceIter
+    C = r'centroid::<impl at geo/src/algorithm/centroid\.rs:44\d:1: [^>]*>::'
+    fn = mir.find('geo', C + 'add_polygon')
+    T = RealTheory()
+    bad, npaths = [], 0
+    for ext_empty in (False, True):
+        for k in (0, 1, 2):
+            rings = {'ext': (T.var('w_ext'), coord(T, 'acc_ext'))}
+            for i in range(k):
+                rings['h%d' % i] = (T.var('w_h%d' % i), coord(T, 'acc_h%d' % i))
+            events = []
+            selfop = [Enum('None')]
+
+            def add_ring(ip, d, pc, argv, rings=rings, ext_empty=ext_empty, events=events, selfop=selfop):
+                op, ring = d[0], d[1]
+                if op is selfop:
+                    events.append((pc, 'ring_on_self', ring))
+                    return []
+                if ring == ('ring', 'ext') and ext_empty:
+                    return []
+                w, acc = rings[ring[1]]
+                cur = deref(op[0])
+                if variant_is(cur, 'None'):
+                    op[0] = Enum('Some', [[w, list(acc), Enum('TwoDimensional')]])
+                else:
+                    wc = deref(cur.fields[0])
+                    op[0] = Enum('Some', [[wc[0] + w, [wc[1][0] + acc[0], wc[1][1] + acc[1]], Enum('TwoDimensional')]])
+                return []
+            add_ring.wants_raw = True
+
+            def add_ls(ip, d, pc):
+                events.append((pc, 'line_string', d[1]))
+                return []
+            add_ls.wants_pc = True
+
+            def add_wc(ip, d, pc):
+                events.append((pc, 'weighted', d[1]))
+                return []
+            add_wc.wants_pc = True
+            uf = {'re:geo_types::Polygon::<\\w+>::exterior': lambda ip, d: ('ring', 'ext'),
+                  're:geo_types::Polygon::<\\w+>::interiors': lambda ip, d, k=k: SliceIter([('ring', 'h%d' % i) for i in range(k)]),
+                  're:CentroidOperation::<\\w+>::add_ring': add_ring,
+                  're:CentroidOperation::<\\w+>::add_line_string': add_ls,
+                  're:CentroidOperation::<\\w+>::add_weighted_centroid': add_wc}
+            ip = Interp(mir, T, EXTRA, uf)
+            outs = ip.call_fn(fn, [Ref(lambda selfop=selfop: selfop), ('polygon',)], z3.BoolVal(True))
+            npaths += len(outs)
+            W = rings['ext'][0] - sum(rings['h%d' % i][0] for i in range(k))
+            AX = rings['ext'][1][0] - sum(rings['h%d' % i][1][0] for i in range(k))
+            AY = rings['ext'][1][1] - sum(rings['h%d' % i][1][1] for i in range(k))
+            if ext_empty:
+                if events:
+                    bad.append(z3.Or([pc for pc, _, _ in events]))
+                continue
+            cancel = z3.And(k > 0, W == 0)
+            for pc, kind, val in events:
+                if kind == 'ring_on_self':
+                    bad.append(pc)     # rings are never accumulated directly into the caller's operation
+                elif kind == 'line_string':
+                    bad.append(z3.And(pc, z3.Not(cancel)) if val == ('ring', 'ext') else pc)
+                else:
+                    wc = deref(val)
+                    ok = z3.And(wc[0] == W, wc[1][0] == AX, wc[1][1] == AY, z3.BoolVal(variant_is(wc[2], 'TwoDimensional')), z3.Not(cancel))
+                    bad.append(z3.And(pc, z3.Not(ok)))
+            # exactly one contribution on every path
+            pcs = [pc for pc, _, _ in events]
+            bad.append(z3.Not(z3.Or(pcs)) if pcs else z3.BoolVal(True))
+            for i in range(len(pcs)):
+                for j in range(i + 1, len(pcs)):
+                    bad.append(z3.And(pcs[i], pcs[j]))
+    st, info, model = check_unsat('polygon_centroid_assembly', [z3.Or(bad)])
+    return dict(theory='Real; rings opaque, add_ring modelled by its contract (adds an arbitrary two-dimensional weighted centroid per ring); add_line_string / add_weighted_centroid recorded', functions=['CentroidOperation::add_polygon', 'WeightedCentroid::sub_assign'], paths=npaths, status=st, info=info, model=None, replay=('centroid_contributions', ''))
 
 
 # ---- C05 kernels
